@@ -603,7 +603,7 @@ func init() {
 			}
 			for m := 0; m < 128; m++ {
 				if masks[m] {
-					for rep := 0; rep < tierPick(tier, 1, 3); rep++ {
+					for rep := 0; rep < tierPick(tier, 1, 8); rep++ {
 						cases = append(cases, e11RootCase(seed, L, m, rep))
 					}
 				}
@@ -614,7 +614,7 @@ func init() {
 				}
 			}
 		}
-		for i := 0; i < tierPick(tier, 16, 600); i++ {
+		for i := 0; i < tierPick(tier, 16, 2000); i++ {
 			cases = append(cases, e11StressCase(seed, i))
 		}
 		return cases
